@@ -312,7 +312,7 @@ def run_workers(prop, n, tier, seed, known_buckets, extra=None):
 def write_evidence(prop, tier, seed, merged, *, rule, wall_s, assumptions, level="exploration", extra_cov=None, nviol=0):
     cov = {
         "evaluations": int(merged["evaluations"]),
-        "distinct_nontrivial": int(len(merged["nontrivial"])),
+        "distinct_nontrivial": int(len(merged["nontrivial"]) + merged.get("nt_extra", 0)),
         "rule": rule,
         "samples": merged["samples"][:12] if merged["samples"] else ["<none>"],
         "class_histogram": dict(sorted(merged["hist"].items())),
